@@ -1,8 +1,9 @@
-CONSTANTS LimbBits = 16  NLimbs = 4  PB = 12  MaxOps = 3  MaxPairs = 16  Bug = ""  Emit = TRUE
+CONSTANTS LimbBits = 16  NLimbs = 4  PB = 12  MaxOps = 2  Bug = ""  Emit = TRUE
   OpKinds = {"reserve", "mapregion", "identity"}
+  Budgets = {1, 40}
   Props = {"C07"}
 CONSTANT Top <- MCTop64
-CONSTANT SizesFor <- MCSizes64
+CONSTANT SizesFor <- MCSizes64H
 CONSTANT Frames <- MCFrames64
 INIT Init
 NEXT Next
